@@ -106,7 +106,10 @@ func (eng *Engine) Verify(fn *ssa.Function, spec *FuncSpec, tags map[string]bool
 		e.wf(v)
 		if e.s.sortOf(p.Type()) == "Ref" {
 			e.s.assert("(>= " + v.T + " 0)")
+		} else {
+			e.notPrivate(v) // slices and interfaces passed in refer to objects that exist already
 		}
+		e.wfFields(v, true, 0)
 		args = append(args, v)
 	}
 	for _, fv := range fn.FreeVars {
